@@ -1,7 +1,11 @@
 mod c26;
+mod c27;
 mod common;
 use vkit::{Check, Level};
 fn main() {
-    let checks: &[Check] = &[Check { id: "C26", level: Level::Exploration, run: c26::run }];
+    let checks: &[Check] = &[
+        Check { id: "C26", level: Level::Exploration, run: c26::run },
+        Check { id: "C27", level: Level::Exploration, run: c27::run },
+    ];
     vkit::main(checks);
 }
